@@ -109,6 +109,17 @@ class C08(Check):
             yield dict(base, writer={"type": "record", "name": "UL", "fields": [{"name": "a", "type": {"type": "array", "items": ul("long", "ticks")}}, {"name": "b", "type": ["null", ul("int", "x")]}]},
                        reader={"type": "record", "name": "UL", "fields": [{"name": "a", "type": {"type": "array", "items": "double"}}, {"name": "b", "type": ["null", "float", "long"]}]},
                        datum={"a": [1, 2**40], "b": 7}, via=via)
+        # reader-only fields whose type is given BY NAME and whose default still has to be converted / completed
+        pt = {"type": "record", "name": "geo.Pt", "fields": [{"name": "x", "type": "int"}, {"name": "y", "type": "int", "default": 0}, {"name": "w", "type": "double", "default": 1}]}
+        tg = {"type": "fixed", "name": "geo.Tag", "size": 2}
+        wr = {"type": "record", "name": "geo.Shape", "fields": [{"name": "id", "type": "long"}, {"name": "at", "type": pt}, {"name": "t", "type": tg}]}
+        rd = {"type": "record", "name": "geo.Shape", "fields": [{"name": "id", "type": "long"}, {"name": "at", "type": pt}, {"name": "t", "type": tg},
+                                                                {"name": "origin", "type": "geo.Pt", "default": {"x": 3}}, {"name": "tag2", "type": "Tag", "default": "ab"},
+                                                                {"name": "more", "type": {"type": "array", "items": "geo.Pt"}, "default": [{"x": 1, "w": 2}]},
+                                                                {"name": "opt", "type": ["geo.Tag", "null"], "default": "\u00ff\u0000"}]}
+        for via in ("schemaless", "container"):
+            for parsed in (False, True):
+                yield dict(base, writer=wr, reader=rd, datum={"id": 7, "at": {"x": 1, "y": 2, "w": 0.5}, "t": b"zz"}, via=via, parsed=parsed)
         # regression cases of the repaired resolution defects (one per fix commit)
         recA = {"type": "record", "name": "ns.A", "fields": [{"name": "x", "type": "int"}]}
         enumA = {"type": "enum", "name": "A", "symbols": ["P", "Q"]}
